@@ -161,22 +161,33 @@ struct Conn {
     s: tokio_rustls::server::TlsStream<DuplexStream>,
 }
 
-async fn handshake(acceptor: Arc<tokio_rustls::TlsAcceptor>) -> Result<(Vec<u8>, Conn), String> {
-    let seen = Arc::new(Mutex::new(None));
+/// A client configuration that verifies the handshake signature against the presented certificate
+/// and remembers TLS sessions: reused for every handshake of a case, as a real client keeps one
+/// connector for all its connections (so that a handshake after a reload may try to *resume*).
+fn client_config() -> Result<Arc<rustls::ClientConfig>, String> {
     let cfg = rustls::ClientConfig::builder_with_provider(provider())
         .with_safe_default_protocol_versions()
         .map_err(|e| e.to_string())?
         .dangerous()
-        .with_custom_certificate_verifier(Arc::new(Capture(seen.clone())))
+        .with_custom_certificate_verifier(Arc::new(Capture(Arc::new(Mutex::new(None)))))
         .with_no_client_auth();
-    let connector = tokio_rustls::TlsConnector::from(Arc::new(cfg));
+    Ok(Arc::new(cfg))
+}
+
+async fn handshake_with(acceptor: Arc<tokio_rustls::TlsAcceptor>, cfg: Arc<rustls::ClientConfig>) -> Result<(Vec<u8>, Conn), String> {
+    let connector = tokio_rustls::TlsConnector::from(cfg);
     let (a, b) = tokio::io::duplex(1 << 16);
     let name = ServerName::try_from("localhost").unwrap();
     let (c, s) = tokio::join!(connector.connect(name, a), acceptor.accept(b));
     let c = c.map_err(|e| format!("client side: {e}"))?;
     let s = s.map_err(|e| format!("server side: {e}"))?;
-    let der = seen.lock().unwrap().clone().ok_or("no certificate seen")?;
+    // the certificate this connection is bound to, as the client sees it (also for a resumed session)
+    let der = c.get_ref().1.peer_certificates().and_then(|v| v.first()).map(|c| c.as_ref().to_vec()).ok_or("no certificate seen")?;
     Ok((der, Conn { c, s }))
+}
+
+async fn handshake(acceptor: Arc<tokio_rustls::TlsAcceptor>) -> Result<(Vec<u8>, Conn), String> {
+    handshake_with(acceptor, client_config()?).await
 }
 
 async fn ping(conn: &mut Conn, tag: u8) -> Result<(), String> {
@@ -359,7 +370,11 @@ impl Family for ReloadFam {
             let mut active = init;
             let mut count = 0u64;
             let mut last_reload = rel.get_last_reload();
-            let (der0, mut old) = handshake(rel.get_acceptor()).await.map_err(|e| Fail::plain("C18.serve", format!("initial handshake failed: {e}")))?;
+            // one client for the whole history (it keeps TLS sessions for resumption), next to fresh ones
+            let keeper = client_config().map_err(|e| Fail::plain("C18.infra", e))?;
+            let (der0, mut old) = handshake_with(rel.get_acceptor(), keeper.clone()).await.map_err(|e| Fail::plain("C18.serve", format!("initial handshake failed: {e}")))?;
+            // (data in both directions: the client has the server's session tickets now)
+            ping(&mut old, 1).await.map_err(|e| Fail::plain("C18.serve", format!("initial connection cannot carry data: {e}")))?;
             ensure!(der0 == ms[active].der, "C18.serve", "initial handshake presented another certificate");
             let mut failed_reload_pending = false;
             let mut nt_failed_then_handshake = false;
@@ -429,8 +444,12 @@ impl Family for ReloadFam {
                         }
                         // both ways of obtaining the acceptor
                         let snap = rel.get_acceptor_ref().read().unwrap().clone();
-                        for (how, acc) in [("get_acceptor()", rel.get_acceptor()), ("server-style snapshot", snap)] {
-                            match handshake(acc).await {
+                        for (how, acc, cfg) in [
+                            ("get_acceptor()", rel.get_acceptor(), client_config().map_err(|e| Fail::plain("C18.infra", e))?),
+                            ("server-style snapshot", snap.clone(), client_config().map_err(|e| Fail::plain("C18.infra", e))?),
+                            ("server-style snapshot, a client that connected before and keeps its TLS sessions", snap, keeper.clone()),
+                        ] {
+                            match handshake_with(acc, cfg).await {
                                 Ok((der, mut conn)) => {
                                     ensure!(
                                         der == ms[active].der,
